@@ -726,7 +726,7 @@ func main() {
 		switch {
 		case c.Kind == "self":
 			return 0
-		case c.Kind == "net" && strings.HasPrefix(c.Family, "count/") && (strings.HasPrefix(c.Tmpl, "cmpctblock") || c.Tmpl == "blocktxn"):
+		case c.Kind == "net" && (strings.HasPrefix(c.Family, "count/") || strings.HasPrefix(c.Family, "count-child/")) && (strings.HasPrefix(c.Tmpl, "cmpctblock") || strings.HasPrefix(c.Tmpl, "blocktxn")):
 			return 1
 		case c.Kind == "lib" && c.Lib.Fn == "TxSize":
 			return 2
